@@ -18,7 +18,10 @@ class C02(Spec):
                   "every configuration (hashNode_Hashed); MemSet returns the root Set returns, Commit returns it again and leaves "
                   "the same database (memset_commit_eq_set). The hash function is a parameter with 32-byte outputs. "
                   "Tie: each generated script runs under all 32 option sets x {Set, MemSet->Commit, mixed}, interleaved with "
-                  "unrelated pending updates/commits/rollbacks/sets; all roots must equal the reference (predicate) and the "
+                  "unrelated pending updates/commits/rollbacks/sets; the scripts include the small states (blocks on the empty state "
+                  "that write nothing, or one key once or several times; one-key states re-written at other heights: the root is "
+                  "then a leaf, hashed by the leaf branch of Node.Hash); the root after EVERY step, whatever its length, must "
+                  "equal the reference configuration's (predicate root-depends-on-configuration) and the "
                   "byte-exact roots of the Lean model (diff). "
                   "Refuted part: 'the memTree cache is transparent' is false of the code (cache_transparent_full_false on the "
                   "abstract cache protocol, and reproduced byte for byte by the literal lazy model C02L: the hunt run and "
